@@ -51,6 +51,15 @@ def atomOf (s : String) : Option V :=
 
 mutual
 partial def parseV (m : Mode) : List Char → Option (V × List Char)
+  -- user objects of the size-hint stream: repr `s` → sequence, `i` → iterable; `n` (NonEnumerable) is not modelled
+  | '[' :: '@' :: rp :: en :: _ :: _ :: '|' :: rest =>
+    if en == 'n' then none
+    else (parseItems m ']' rest).map fun (xs, r) =>
+      let xs' := if en == 'e' then [] else xs
+      (if rp == 's' then V.seq xs' else V.iter xs', r)
+  | '{' :: '@' :: _ :: en :: _ :: _ :: '|' :: rest =>
+    if en == 'n' then none
+    else (parsePairs m rest).map fun (ps, r) => (V.map (if en == 'e' then [] else ps), r)
   | '[' :: '=' :: rest => (parseItems m ']' rest).map fun (xs, r) => (.seq xs, r)
   | '[' :: rest => (parseItems m ']' rest).map fun (xs, r) => (.seq xs, r)
   | '(' :: rest => (parseItems m ')' rest).map fun (xs, r) => (.tuple xs, r)
